@@ -9,22 +9,22 @@ nmiss_now = table.count("| MISSED |")
 sec = f'''
 ## 12. Seeded changes: which check reports which change
 
-**Protocol.** Eight rounds of fresh sub-agents (rounds 1-2: two agents per property with one change each; rounds 3-7: one
-agent per property with two changes; round 8: one change per property; 260 changes in all).  Each agent saw only the text of one property and a scratch
+**Protocol.** Nine rounds of fresh sub-agents (rounds 1-2: two agents per property with one change each; rounds 3-7: one
+agent per property with two changes; rounds 8-9: one change per property; 280 changes in all).  Each agent saw only the text of one property and a scratch
 copy of the crate - nothing from /verif - and had to produce a small, realistic change that breaks the property, keeps
 the crate compiling and keeps all 483 existing tests passing, needs something specific to manifest, and comes with a
-demonstration test.  In rounds 4 to 8 the agents were also given the one-line titles of the changes already tried for their
+demonstration test.  In rounds 4 to 9 the agents were also given the one-line titles of the changes already tried for their
 property and told to go elsewhere.  Every change was confirmed here in a scratch worktree (`lib/seedtest.py`:
 demonstration passes on the original and fails with the change; the whole existing suite passes with the change)
 before the property's quick check was run against it (`git -C /repo apply`; `./check Cxx --tier quick`;
-`git -C /repo checkout -- .`).  The kept changes are in `seeded/<Cxx>-<A..M>/` (patch.diff, demo.rs, notes.md, meta.json
-with what was run and the outcome): A, B from rounds 1-2, C, D from round 3, E, F from round 4, G, H from round 5, I, J from round 6, K, L from round 7, M from round 8; all {nrows} apply to the
+`git -C /repo checkout -- .`).  The kept changes are in `seeded/<Cxx>-<A..N>/` (patch.diff, demo.rs, notes.md, meta.json
+with what was run and the outcome): A, B from rounds 1-2, C, D from round 3, E, F from round 4, G, H from round 5, I, J from round 6, K, L from round 7, M from round 8, N from round 9; all {nrows} apply to the
 current tree.  The two round-1 changes for C15 patched the `DeduplicateTracker`, which no longer exists since
 `deduplicate_namespaces` was rewritten (§11.3); they were reported by the C15 check at the time (one only after the
-known-finding signature had been narrowed, §11.5 item 11) and are replaced by C15-C .. C15-M.
+known-finding signature had been narrowed, §11.5 item 11) and are replaced by C15-C .. C15-N.
 
-**Result.** Of the 260 changes, 191 were reported by the quick check of their property the first time it met them, 69
-were not (10 of 40 in rounds 1-2, 4 of 40 in round 3, 10 of 40 in round 4, 10 of 40 in round 5, 17 of 40 in round 6, 13 of 40 in round 7 and 5 of 20 in round 8, where the agents were steered away from what
+**Result.** Of the 280 changes, 204 were reported by the quick check of their property the first time it met them, 76
+were not (10 of 40 in rounds 1-2, 4 of 40 in round 3, 10 of 40 in round 4, 10 of 40 in round 5, 17 of 40 in round 6, 13 of 40 in round 7, 5 of 20 in round 8 and 7 of 20 in round 9, where the agents were steered away from what
 had been tried).  Almost every miss was a gap in what the generators reach; a few were gaps in what is observed (C12-F, C12-J: the xml:id
 index of a clone / of a cloned store; C09-G: an accessor that panics killed the observer instead of being reported;
 C16-I: the Write-based entry point was only driven through a Vec; C07-J: a state that cannot be built was charged to
@@ -46,10 +46,10 @@ top-level white-space fragments, one-special-piece value spellings), and the reg
 Honest caveat for round 3: the agents' five-line summaries were read before the checks were run, and some families
 were added on the strength of them beforehand (sibling after a childless declaring element in MCScope3, MCScope4,
 attribute-rename mutations, `prefix-after-scope` and `charref-overflow` damage, prefixes outside ASCII); the "first
-run" column counts those changes as caught although the check that caught them was one revision old.  Rounds 4 to 8 were
-run blind: nothing was changed in the machinery between reading the summaries and the first run (for rounds 6 to 8 the first
+run" column counts those changes as caught although the check that caught them was one revision old.  Rounds 4 to 9 were
+run blind: nothing was changed in the machinery between reading the summaries and the first run (for rounds 6 to 9 the first
 run was made in a development lane - a copy of /verif at the committed state against a copy of the crate - and its
-log is kept as `seeded/round6_first_run.log` / `round7_first_run.log` / `round8_first_run.log`; for round 7 that copy already held the
+log is kept as `seeded/round6_first_run.log` / `round7_first_run.log` / `round8_first_run.log` / `round9_first_run.log`; for round 7 that copy already held the
 xmlname observations of 11.2, written before the agents reported; the table's last column is the later run in /verif against /repo).
 
 What each first-run miss led to:
